@@ -101,7 +101,7 @@ func NewEncryptedISO(f afero.File, data1 []byte, clearRegions bool) (*EncryptedI
 	}
 
 	var prevRegionEnd uint32
-	encryptedRegions := make([]region, hdr.Count-1)
+	encryptedRegions := make([]region, 0, hdr.Count-1)
 	for i, unencryptedRegion := range unencryptedRegions {
 		// some sanity checks: region "borders" must increase monotonically
 		if unencryptedRegion.End <= unencryptedRegion.Start {
@@ -118,9 +118,10 @@ func NewEncryptedISO(f afero.File, data1 []byte, clearRegions bool) (*EncryptedI
 			continue
 		}
 
-		// encrypted region placed between previous unencrypted region and current unencrypted region
+		// encrypted region placed between previous unencrypted region and current unencrypted region,
+		// unencrypted region end sector is inclusive (i.e. whole plain disc has one region {0, last sector})
 		encryptedRegions = append(encryptedRegions, region{
-			start: sizeSectors(unencryptedRegions[i-1].End),
+			start: sizeSectors(unencryptedRegions[i-1].End).next(),
 			end:   sizeSectors(unencryptedRegion.Start),
 		})
 	}
